@@ -15,7 +15,8 @@ DIAL = {"plaintext": "plaintext", "tlsnocert": "tls-nocert", "selfsignedc1": "se
         "expiredc1": "expired-c1", "ticketothercac1": "ticket-otherca-c1", "ticketothercasigner2": "ticket-otherca-signer-2", "validc1": "valid-c1", "validc2": "valid-c2", "validnobody": "valid-nobody", "validsigner2": "valid-signer-2",
         "validc2sanc1": "valid-c2~san-c1", "validnobodysansigner2": "valid-nobody~san-signer-2", "validupperc1": "valid-C1",
         "validc2plusselfsignedc1": "valid-c2+selfsigned-c1", "validc2plusothercac1": "valid-c2+otherca-c1",
-        "validc1plusselfsignedsigner2": "valid-c1+selfsigned-signer-2"}
+        "validc1plusselfsignedsigner2": "valid-c1+selfsigned-signer-2",
+        "validc2afterc1": "valid-c2@after-valid-c1", "validc1afterc2": "valid-c1@after-valid-c2", "validnobodyaftersigner2": "valid-nobody@after-valid-signer-2"}
 
 
 def run_apidrv(plan, wd, tag, timeout=900, dirk=None):
@@ -153,7 +154,7 @@ def replay(prop, path):
                 for e in evs:
                     if e["ev"] == "Storm":
                         print(json.dumps(e)[:400])
-                bad += rc == 3
+                bad += rc == 3 or (rc == 2 and ("fatal error:" in err or "panic:" in err) and "attestantio/dirk/" in err)
             if bad:
                 print("VIOLATION property=C20 replay=%s" % path)
                 return 1
